@@ -132,31 +132,31 @@ theorem dmin4_same (p : Int) : Dom.dmin [p, p, p, p] = p ∧ Dom.dmax [p, p, p, 
   exact ⟨h1, h2⟩
 
 /-- back-propagation of a quotient onto a step-free view keeps the solution -/
-theorem keeps_quot {v : IView} (hv : v.WF) (hvs : v.NoStep) {c : Ctx} {a : Asg} (hm : Mem c.st a)
+theorem keeps_quot {v : IView} (hv : v.WF) {c : Ctx} {a : Asg} (hm : Mem c.st a)
     {lo hi : Int} (h1 : lo ≤ v.eval a) (h2 : v.eval a ≤ hi) :
     Keeps a (PK.bind (v.trySetMinF lo c) (fun c' => v.trySetMaxF hi c')) := by
-  rw [IView.trySetMinF_eq hvs]
+  rw [IView.trySetMinF_eq]
   refine Keeps.bind (IView.keeps_min hv hm h1) (fun c1 m1 => ?_)
-  rw [IView.trySetMaxF_eq hvs]
+  rw [IView.trySetMaxF_eq]
   exact IView.keeps_max hv m1 h2
 
-theorem good_quot {v : IView} (hvs : v.NoStep) {T : List Nat} (hT : v.UnderIn T) {c c' : Ctx} {lo hi : Int}
+theorem good_quot {v : IView} {T : List Nat} (hT : v.UnderIn T) {c c' : Ctx} {lo hi : Int}
     (h : PK.bind (v.trySetMinF lo c) (fun c' => v.trySetMaxF hi c') = some c') : Good T c c' := by
   obtain ⟨c1, h1, h2⟩ := bind_some h
-  rw [IView.trySetMinF_eq hvs] at h1
-  rw [IView.trySetMaxF_eq hvs] at h2
+  rw [IView.trySetMinF_eq] at h1
+  rw [IView.trySetMaxF_eq] at h2
   exact (IView.good_min hT h1).trans (IView.good_max hT h2)
 
-theorem resp_quot {v : IView} (hvs : v.NoStep) {T : List Nat} (hT : v.UnderIn T) {c1 c2 : Ctx} (lo hi : Int)
+theorem resp_quot {v : IView} {T : List Nat} (hT : v.UnderIn T) {c1 c2 : Ctx} (lo hi : Int)
     (hag : Agree T c1 c2) :
     RelO T (PK.bind (v.trySetMinF lo c1) (fun c' => v.trySetMaxF hi c'))
            (PK.bind (v.trySetMinF lo c2) (fun c' => v.trySetMaxF hi c')) := by
-  rw [IView.trySetMinF_eq hvs, IView.trySetMinF_eq hvs]
+  rw [IView.trySetMinF_eq, IView.trySetMinF_eq]
   refine RelO.bind ((IView.resp v _ hT).1 _ _ _ hag) (fun d1 d2 hd => ?_)
-  rw [IView.trySetMaxF_eq hvs, IView.trySetMaxF_eq hvs]
+  rw [IView.trySetMaxF_eq, IView.trySetMaxF_eq]
   exact (IView.resp v _ hT).2 _ _ _ hd
 
-theorem sound_mul (x y : IView) (s : Nat) (hx : x.WF) (hy : y.WF) (hxs : x.NoStep) (hys : y.NoStep) :
+theorem sound_mul (x y : IView) (s : Nat) (hx : x.WF) (hy : y.WF) :
     Sound (prune (.mul x y s)) (fun a => holds a (.mul x y s) = true) := by
   intro c a hm hs
   have hs : x.eval a * y.eval a = a s := by simpa [holds] using hs
@@ -173,15 +173,15 @@ theorem sound_mul (x y : IView) (s : Nat) (hx : x.WF) (hy : y.WF) (hxs : x.NoSte
     · rw [if_pos h0]; exact Keeps.some m2
     · rw [if_neg h0]
       have hq := quot_corners (x.eval a) (y.eval a) (a s) _ _ _ _ hs hsb.1 hsb.2 hyb.1 hyb.2 (by simpa using h0)
-      exact keeps_quot hx hxs m2 hq.1 hq.2
+      exact keeps_quot hx m2 hq.1 hq.2
   · by_cases h0 : rangeHasZero (x.vmin c) (x.vmax c) = true
     · rw [if_pos h0]; exact Keeps.some m3
     · rw [if_neg h0]
       have hq := quot_corners (y.eval a) (x.eval a) (a s) _ _ _ _ (by rw [Int.mul_comm]; exact hs)
         hsb.1 hsb.2 hxb.1 hxb.2 (by simpa using h0)
-      exact keeps_quot hy hys m3 hq.1 hq.2
+      exact keeps_quot hy m3 hq.1 hq.2
 
-theorem contracting_mul (x y : IView) (s : Nat) (hxs : x.NoStep) (hys : y.NoStep) :
+theorem contracting_mul (x y : IView) (s : Nat) :
     Contracting (prune (.mul x y s)) (triggers (.mul x y s)) := by
   intro c c' h
   have hxT := mul_xT x y s
@@ -196,11 +196,11 @@ theorem contracting_mul (x y : IView) (s : Nat) (hxs : x.NoStep) (hys : y.NoStep
   have g3 : Good (triggers (.mul x y s)) c2 c3 := by
     split at h3
     · cases h3; exact Good.refl _ _
-    · exact good_quot hxs hxT h3
+    · exact good_quot hxT h3
   have g4 : Good (triggers (.mul x y s)) c3 c' := by
     split at h4
     · cases h4; exact Good.refl _ _
-    · exact good_quot hys hyT h4
+    · exact good_quot hyT h4
   exact (g2.trans g3).trans g4
 
 theorem checking_mul (x y : IView) (s : Nat) :
@@ -225,7 +225,7 @@ theorem checking_mul (x y : IView) (s : Nat) :
   simp only [holds, beq_iff_eq]
   omega
 
-theorem resp_mul (x y : IView) (s : Nat) (hxs : x.NoStep) (hys : y.NoStep) :
+theorem resp_mul (x y : IView) (s : Nat) :
     Resp (triggers (.mul x y s)) (prune (.mul x y s)) := by
   intro c1 c2 hag
   have hxT := mul_xT x y s
@@ -238,12 +238,12 @@ theorem resp_mul (x y : IView) (s : Nat) (hxs : x.NoStep) (hys : y.NoStep) :
     (fun d1 d2 hd => ?_)
   rw [hd s hsT]
   refine RelO.bind ?_ (fun e1 e2 he => ?_)
-  · exact RelO.ite (fun _ => RelO.some hd) (fun _ => resp_quot hxs hxT _ _ hd)
-  · exact RelO.ite (fun _ => RelO.some he) (fun _ => resp_quot hys hyT _ _ he)
+  · exact RelO.ite (fun _ => RelO.some hd) (fun _ => resp_quot hxT _ _ hd)
+  · exact RelO.ite (fun _ => RelO.some he) (fun _ => resp_quot hyT _ _ he)
 
-theorem contract_mul (x y : IView) (s : Nat) (hx : x.WF) (hy : y.WF) (hxs : x.NoStep) (hys : y.NoStep) :
+theorem contract_mul (x y : IView) (s : Nat) (hx : x.WF) (hy : y.WF) :
     Contract (prune (.mul x y s)) (fun a => holds a (.mul x y s) = true) (triggers (.mul x y s)) :=
-  ⟨sound_mul x y s hx hy hxs hys, contracting_mul x y s hxs hys, checking_mul x y s, resp_mul x y s hxs hys⟩
+  ⟨sound_mul x y s hx hy, contracting_mul x y s, checking_mul x y s, resp_mul x y s⟩
 
 /-! ### div -/
 
@@ -256,7 +256,7 @@ theorem div_sT (x y : IView) (s : Nat) : s ∈ triggers (.div x y s) :=
 
 /-- soundness of `div` needs no store precondition (on a divisor range containing 0 the
 propagator does nothing) -/
-theorem sound_div (x y : IView) (s : Nat) (hx : x.WF) (hy : y.WF) (hys : y.NoStep) :
+theorem sound_div (x y : IView) (s : Nat) (hx : x.WF) (hy : y.WF) :
     Sound (prune (.div x y s)) (fun a => holds a (.div x y s) = true) := by
   intro c a hm hs
   have hs : y.eval a ≠ 0 ∧ a s * y.eval a = x.eval a := by simpa [holds] using hs
@@ -265,7 +265,12 @@ theorem sound_div (x y : IView) (s : Nat) (hx : x.WF) (hy : y.WF) (hys : y.NoSte
   show Keeps a (pruneDiv x y s c)
   simp only [pruneDiv]
   by_cases h0 : rangeHasZero (y.vmin c) (y.vmax c) = true
-  · rw [if_pos h0]; exact Keeps.some hm
+  · rw [if_pos h0]
+    by_cases he : y.vmin c = y.vmax c
+    · exfalso
+      simp only [rangeHasZero, Bool.and_eq_true, decide_eq_true_eq] at h0
+      exact hs.1 (by omega)
+    · rw [if_neg he]; exact Keeps.some hm
   · rw [if_neg h0]
     have hq := quot_corners (a s) (y.eval a) (x.eval a) _ _ _ _ hs.2 hxb.1 hxb.2 hyb.1 hyb.2 (by simpa using h0)
     refine Keeps.bind (Keeps.bind (Ctx.trySetMin_keeps hm hq.1) (fun c1 m1 => Ctx.trySetMax_keeps m1 hq.2))
@@ -279,9 +284,9 @@ theorem sound_div (x y : IView) (s : Nat) (hx : x.WF) (hy : y.WF) (hys : y.NoSte
     · rw [if_neg h1]
       have hq2 := quot_corners (y.eval a) (a s) (x.eval a) _ _ _ _ (by rw [Int.mul_comm]; exact hs.2)
         hxb.1 hxb.2 hsb.1 hsb.2 (by simpa using h1)
-      exact keeps_quot hy hys m4 hq2.1 hq2.2
+      exact keeps_quot hy m4 hq2.1 hq2.2
 
-theorem contracting_div (x y : IView) (s : Nat) (hys : y.NoStep) :
+theorem contracting_div (x y : IView) (s : Nat) :
     Contracting (prune (.div x y s)) (triggers (.div x y s)) := by
   intro c c' h
   have hxT := div_xT x y s
@@ -290,7 +295,9 @@ theorem contracting_div (x y : IView) (s : Nat) (hys : y.NoStep) :
   change pruneDiv x y s c = some c' at h
   simp only [pruneDiv] at h
   split at h
-  · cases h; exact Good.refl _ _
+  · split at h
+    · cases h
+    · cases h; exact Good.refl _ _
   · obtain ⟨c2, h12, h⟩ := bind_some h
     obtain ⟨c1, h1, h2⟩ := bind_some h12
     obtain ⟨c4, h34, h5⟩ := bind_some h
@@ -300,11 +307,10 @@ theorem contracting_div (x y : IView) (s : Nat) (hys : y.NoStep) :
     refine g4.trans ?_
     split at h5
     · cases h5; exact Good.refl _ _
-    · exact good_quot hys hyT h5
+    · exact good_quot hyT h5
 
-/-- `checking` needs the divisor range to exclude 0: otherwise the propagator returns success
-without looking at anything (finding `zero-in-divisor-range`) -/
-theorem checking_div (x y : IView) (s : Nat) (c c' : Ctx) (a : Asg)
+/-- `checking` on a divisor range that excludes 0 -/
+theorem checking_div_nz (x y : IView) (s : Nat) (c c' : Ctx) (a : Asg)
     (hnz : rangeHasZero (y.minRaw c.st) (y.maxRaw c.st) = false)
     (hf : FixedOn (triggers (.div x y s)) c.st) (hm : Mem c.st a)
     (h : prune (.div x y s) c = some c') : holds a (.div x y s) = true := by
@@ -334,7 +340,25 @@ theorem checking_div (x y : IView) (s : Nat) (c c' : Ctx) (a : Asg)
   simp only [holds, Bool.and_eq_true, bne_iff_ne, ne_eq, beq_iff_eq]
   exact ⟨hy0, by rw [e]; exact this⟩
 
-theorem resp_div (x y : IView) (s : Nat) (hys : y.NoStep) :
+/-- `checking`: a fixed divisor equal to 0 makes the propagator fail (since the repair
+`fix: Div/Modulo fail when the divisor is fixed to zero`; before it the propagator returned success
+without looking at anything), so no store precondition is needed -/
+theorem checking_div (x y : IView) (s : Nat) :
+    Checking (prune (.div x y s)) (fun a => holds a (.div x y s) = true) (triggers (.div x y s)) := by
+  intro c c' a hf hm h
+  have hyb : y.vmin c = y.eval a ∧ y.vmax c = y.eval a := y.bounds_fixed hm (fixedOn_view hf (div_yT x y s))
+  by_cases hnz : rangeHasZero (y.minRaw c.st) (y.maxRaw c.st) = false
+  · exact checking_div_nz x y s c c' a hnz hf hm h
+  · exfalso
+    have h0 : rangeHasZero (y.vmin c) (y.vmax c) = true := by
+      have : rangeHasZero (y.minRaw c.st) (y.maxRaw c.st) = true := by simpa using hnz
+      exact this
+    change pruneDiv x y s c = some c' at h
+    simp only [pruneDiv] at h
+    rw [if_pos h0, if_pos (by rw [hyb.1, hyb.2])] at h
+    cases h
+
+theorem resp_div (x y : IView) (s : Nat) :
     Resp (triggers (.div x y s)) (prune (.div x y s)) := by
   intro c1 c2 hag
   have hxT := div_xT x y s
@@ -343,13 +367,17 @@ theorem resp_div (x y : IView) (s : Nat) (hys : y.NoStep) :
   show RelO _ (pruneDiv x y s c1) (pruneDiv x y s c2)
   simp only [pruneDiv]
   rw [IView.vmin_agree hxT hag, IView.vmax_agree hxT hag, IView.vmin_agree hyT hag, IView.vmax_agree hyT hag]
-  refine RelO.ite (fun _ => RelO.some hag) (fun _ => ?_)
+  refine RelO.ite (fun _ => RelO.ite (fun _ => RelO.none) (fun _ => RelO.some hag)) (fun _ => ?_)
   refine RelO.bind (RelO.bind (Ctx.trySetMin_resp _ hsT hag) (fun d1 d2 hd => Ctx.trySetMax_resp _ hsT hd))
     (fun d1 d2 hd => ?_)
   rw [hd s hsT]
   refine RelO.bind (RelO.bind ((IView.resp x _ hxT).1 _ _ _ hd) (fun e1 e2 he => (IView.resp x _ hxT).2 _ _ _ he))
     (fun e1 e2 he => ?_)
-  exact RelO.ite (fun _ => RelO.some he) (fun _ => resp_quot hys hyT _ _ he)
+  exact RelO.ite (fun _ => RelO.some he) (fun _ => resp_quot hyT _ _ he)
+
+theorem contract_div (x y : IView) (s : Nat) (hx : x.WF) (hy : y.WF) :
+    Contract (prune (.div x y s)) (fun a => holds a (.div x y s) = true) (triggers (.div x y s)) :=
+  ⟨sound_div x y s hx hy, contracting_div x y s, checking_div x y s, resp_div x y s⟩
 
 end PK
 
@@ -363,19 +391,17 @@ theorem divOk_good (y : IView) (hy : y.WF) {T : List Nat} {c c' : Ctx} (g : Good
   simp only [rangeHasZero, Bool.and_eq_false_iff, decide_eq_false_iff_not] at h ⊢
   omega
 
-/-! ### findings (kernel-checked) -/
+/-! ### former findings, repaired in the code (kernel-checked on the old witnesses) -/
 
-/-- `div` with a divisor fixed to 0 is accepted although `1 / 0 = 5` is false -/
-theorem div_zero_divisor_counterexample :
-    (PK.prune (.div (.var 0) (.var 1) 2) { st := fun i => [[1], [0], [5]].getD i [0] }).isSome = true ∧
-    PK.holds (fun i => [1, 0, 5].getD i 0) (.div (.var 0) (.var 1) 2) = false := by decide
+/-- `div` with a divisor fixed to 0 now fails (witness of the former finding `zero-in-divisor-range`) -/
+theorem div_zero_divisor_fails :
+    PK.prune (.div (.var 0) (.var 1) 2) { st := fun i => [[1], [0], [5]].getD i [0] } = none := by decide
 
-/-- a quotient bound pushed through a `Next` view is not shifted: `(x+1) * y = s` with
-`x ∈ {1,2}`, `y = 2`, `s = 4` loses the solution `x = 1` -/
-theorem mul_next_counterexample :
+/-- a quotient bound pushed through a `Next` view is shifted: `(x+1) * y = s` with `x ∈ {1,2}`,
+`y = 2`, `s = 4` keeps the solution `x = 1` (witness of the former finding `next-prev-float-bound`) -/
+theorem mul_next_keeps :
     (PK.prune (.mul (.next (.var 0)) (.var 1) 2) { st := fun i => [[1, 2], [2], [4]].getD i [0] }).map
-        (fun c => c.st 0) = some [2] ∧
-    PK.holds (fun i => [1, 2, 4].getD i 0) (.mul (.next (.var 0)) (.var 1) 2) = true := by decide
+        (fun c => c.st 0) = some [1] := by decide
 
 end KMulDiv
 end Selen
